@@ -808,12 +808,6 @@ Qed.
    request, to the client and key of its row of the routing table *)
 Theorem load_total fuel cfg st u :
   link_free st ->
-  (exists d, snd (load fuel cfg st u) = Ok d) \/ (exists t, snd (load fuel cfg st u) = Err t) /\
-  True.
-Proof. Abort.
-
-Theorem load_total fuel cfg st u :
-  link_free st ->
   ((exists d, outcome_of (snd (load fuel cfg st u)) = ODoc d) \/
    outcome_of (snd (load fuel cfg st u)) = OErr) /\
   (new_reqs st (fst (load fuel cfg st u)) = [] \/
@@ -845,4 +839,282 @@ Proof.
   assert (Hh : forall k, load_http (recf f1 cfg) cfg st k = load_http (recf f2 cfg) cfg st k).
   { intros k. unfold load_http. rewrite Hf. reflexivity. }
   rewrite !Hh. reflexivity.
+Qed.
+
+(* ---- fuel only matters for Diverge ---- *)
+Definition extends (rec1 rec2 : state -> url -> state * res doc) : Prop :=
+  forall st u, snd (rec1 st u) <> Diverge -> rec2 st u = rec1 st u.
+
+Lemma fetch_mono rec1 rec2 cfg st u :
+  extends rec1 rec2 -> snd (fetch rec1 cfg st u) <> Diverge ->
+  fetch rec2 cfg st u = fetch rec1 cfg st u.
+Proof.
+  intros Hx. unfold fetch.
+  destruct (url_ok cfg u); simpl; [|reflexivity].
+  destruct (origin st u) as [code b p alt|]; [|reflexivity].
+  destruct (code =? 200); simpl; [|reflexivity].
+  destruct alt as [t|]; [|reflexivity].
+  pose proof (Hx (log_req st (CHttp, u, now st, RResp code b p (Some t))) t) as Hx1.
+  destruct (rec1 (log_req st (CHttp, u, now st, RResp code b p (Some t))) t) as [st2 r2] eqn:E1.
+  simpl in Hx1. intros Hnd.
+  assert (Hr2 : r2 <> Diverge).
+  { intros E. subst r2. apply Hnd. reflexivity. }
+  rewrite (Hx1 Hr2). reflexivity.
+Qed.
+
+Lemma load_with_mono rec1 rec2 cfg st u :
+  extends rec1 rec2 -> snd (load_with rec1 cfg st u) <> Diverge ->
+  load_with rec2 cfg st u = load_with rec1 cfg st u.
+Proof.
+  intros Hx.
+  assert (Hh : forall k, snd (load_http rec1 cfg st k) <> Diverge ->
+                         load_http rec2 cfg st k = load_http rec1 cfg st k).
+  { intros k. unfold load_http.
+    destruct (cache_on cfg); [|apply fetch_mono; exact Hx].
+    destruct (engine_get cfg st k) as [d e| |]; [|apply fetch_mono; exact Hx|reflexivity].
+    destruct (after e (now st)); [reflexivity|apply fetch_mono; exact Hx]. }
+  unfold load_with.
+  destruct (has_prefix "http://" u || has_prefix "https://" u); [apply Hh|].
+  destruct (has_prefix "ipfs://" u); [|reflexivity].
+  destruct (ipfs_client cfg); [reflexivity|].
+  destruct (negb (String.eqb (gateway cfg) "")); [apply Hh|reflexivity].
+Qed.
+
+Lemma load_mono_S fuel cfg : extends (load fuel cfg) (load (S fuel) cfg).
+Proof.
+  induction fuel as [|f IH]; intros st u Hnd.
+  - rewrite (load_unfold 1), (load_unfold 0) in *. apply load_with_mono; [|exact Hnd].
+    intros st' u' H. exfalso. apply H. reflexivity.
+  - rewrite (load_unfold (S (S f))), (load_unfold (S f)) in *. apply load_with_mono; [|exact Hnd].
+    exact IH.
+Qed.
+
+(* more fuel never changes a load that did not run out of fuel *)
+Theorem load_mono f1 f2 cfg st u :
+  (f1 <= f2)%nat -> snd (load f1 cfg st u) <> Diverge -> load f2 cfg st u = load f1 cfg st u.
+Proof.
+  intros Hle. induction Hle as [|m Hle IH]; intros Hnd; [reflexivity|].
+  rewrite <- (IH Hnd). apply load_mono_S. rewrite (IH Hnd). exact Hnd.
+Qed.
+
+(* ---- non-vacuity: concrete histories ---- *)
+(* the behaviour of pquerna/cachecontrol v0.0.0-20180517163645-1555304b9b35 on the header sets,
+   written down by hand; the per-run case files carry the recorded table instead *)
+Definition cc_reference (p : policy) : ccdec :=
+  match p with
+  | PMaxAge n | PSMaxAge n | PPublicMaxAge n | PExpiresDate n | PExpires n
+  | PMustRevalidate n => (true, Some n, false)
+  | PNoCacheMaxAge n => (true, Some n, true)
+  | PNone | PExpiresInvalid => (true, None, false)
+  | PNoCache => (true, None, true)
+  | PNoStore | PPrivate | PBadDate _ => (false, None, false)
+  | PMalformed => (false, None, false)
+  | PPrivateMaxAge n | PNoStoreMaxAge n => (false, Some n, false)
+  end.
+
+Example cc_reference_respects_headers cm cli gw uok :
+  cc_respects_headers {| cache_mode_of := cm; ipfs_client := cli; gateway := gw; url_ok := uok;
+                         cc := cc_reference |}.
+Proof.
+  split; [|split]; intros p; destruct p; simpl; intros H; try contradiction; reflexivity.
+Qed.
+
+Definition ex_cfg : config :=
+  {| cache_mode_of := CacheMemory [("https://e.test/ctx", 900)];
+     ipfs_client := false; gateway := "http://gw.test//"; url_ok := fun _ => true;
+     cc := cc_reference |}.
+
+Definition a_url : url := "http://a.test/d".
+
+Definition ex_ops : list op :=
+  [ Serve a_url (ok_resp 1 (PMaxAge 3000)); Load a_url;
+    Serve a_url (ok_resp 2 PNoStore); Load a_url;                (* v1 from the cache *)
+    Tick 3000; Load a_url;                                       (* expired: v2, not stored *)
+    Serve a_url (ok_resp 3 PNone); Load a_url;                   (* v3, stored with zero expiry *)
+    Serve a_url (ok_resp 4 (PMaxAge 1000)); Load a_url;          (* v4: v3 was not reused *)
+    Serve a_url (RResp 404 (BJson 5) (PMaxAge 1000) None); Load a_url; (* v4 from the cache *)
+    Tick 1000; Load a_url;                                       (* expired and failing: error *)
+    Load "https://e.test/ctx";                                   (* embedded *)
+    Serve "http://gw.test/ipfs/Qm/x" (ok_resp 7 (PSMaxAge 1000)); Load "ipfs:///Qm/x";
+    Load "ftp://a.test/d" ].
+
+Example ex_link_free : link_free_ops ex_ops.
+Proof.
+  intros u code b p t Hin. simpl in Hin.
+  repeat (destruct Hin as [Hin|Hin]; [discriminate Hin|]). exact Hin.
+Qed.
+
+Example ex_observe :
+  observe 0 ex_cfg init ex_ops =
+  [ (ODoc 1, [(CHttp, a_url)]); (ODoc 1, []);
+    (ODoc 2, [(CHttp, a_url)]);
+    (ODoc 3, [(CHttp, a_url)]);
+    (ODoc 4, [(CHttp, a_url)]);
+    (ODoc 4, []);
+    (OErr, [(CHttp, a_url)]);
+    (ODoc 900, []);
+    (ODoc 7, [(CHttp, "http://gw.test/ipfs/Qm/x")]);
+    (OErr, []) ].
+Proof. vm_compute. reflexivity. Qed.
+
+(* C19_inv is not vacuous: a reachable state with a non-empty cache *)
+Example ex_inv :
+  cache (run 0 ex_cfg ex_ops) =
+  [ (a_url, (4, TAt 4000)); ("http://gw.test/ipfs/Qm/x", (7, TAt 5000)) ].
+Proof. vm_compute. reflexivity. Qed.
+
+(* C19_fresh: a document from the cache although the origin has moved on *)
+Example ex_fresh_cache :
+  let ops := firstn 3 ex_ops in
+  load 0 ex_cfg (run 0 ex_cfg ops) a_url = (run 0 ex_cfg ops, Ok 1) /\
+  served ops a_url = ok_resp 2 PNoStore /\ In (a_url, (1, TAt 3000)) (cache (run 0 ex_cfg ops)).
+Proof. vm_compute. repeat split; auto. Qed.
+
+(* C19_no_reuse: v3 was served without freshness information and stored (zero expiry);
+   the next load does not return it but fetches v4 *)
+Example ex_no_reuse :
+  let ops := firstn 9 ex_ops in
+  assoc String.eqb a_url (cache (run 0 ex_cfg ops)) = Some (3, TZero) /\
+  served ops a_url = ok_resp 4 (PMaxAge 1000) /\
+  snd (load 0 ex_cfg (run 0 ex_cfg ops) a_url) = Ok 4 /\
+  new_reqs (run 0 ex_cfg ops) (fst (load 0 ex_cfg (run 0 ex_cfg ops) a_url)) = [(CHttp, a_url)].
+Proof. vm_compute. repeat split; reflexivity. Qed.
+
+(* C19_failures: the origin answers 404 with a JSON body and max-age: the load fails once the
+   cached copy has expired, and the cache is untouched *)
+Example ex_failure :
+  let st := run 0 ex_cfg (firstn 14 ex_ops) in
+  origin st a_url = RResp 404 (BJson 5) (PMaxAge 1000) None /\
+  snd (load 0 ex_cfg st a_url) = Err "status" /\
+  cache (fst (load 0 ex_cfg st a_url)) = cache st /\ cache st <> [].
+Proof. vm_compute. repeat split; try reflexivity. discriminate. Qed.
+
+(* embedded *)
+Example ex_embedded :
+  route_of ex_cfg "https://e.test/ctx" = ToHttp "https://e.test/ctx" /\
+  assoc String.eqb "https://e.test/ctx" (embedded ex_cfg) = Some 900.
+Proof. vm_compute. split; reflexivity. Qed.
+
+(* C19_route: every row of the table is inhabited *)
+Example ex_route :
+  route_of ex_cfg "ipfs://Qm/x" = ToHttp "http://gw.test/ipfs/Qm/x" /\
+  route_of {| cache_mode_of := CacheOff; ipfs_client := true; gateway := "http://gw.test";
+              url_ok := fun _ => true; cc := cc_reference |} "ipfs://Qm/x" = ToNode "Qm/x" /\
+  route_of {| cache_mode_of := CacheDefault; ipfs_client := false; gateway := "";
+              url_ok := fun _ => true; cc := cc_reference |} "ipfs://Qm/x" = Reject /\
+  route_of ex_cfg "httpx://a.test/d" = Reject /\ route_of ex_cfg "" = Reject /\
+  route_of ex_cfg "file:///etc/passwd" = Reject.
+Proof. vm_compute. repeat split; reflexivity. Qed.
+
+(* the premises of C19_no_reuse are satisfiable: v1 was only ever received with no-store *)
+Example ex_no_reuse_premises :
+  let ops := [Serve a_url (ok_resp 1 PNoStore); Load a_url] in
+  link_free_ops ops /\
+  (exists st', load 0 ex_cfg (run 0 ex_cfg ops) a_url = (st', Ok 1)) /\
+  route_of ex_cfg a_url = ToHttp a_url /\
+  assoc String.eqb a_url (embedded ex_cfg) = None /\
+  (forall pre u0 post p,
+     ops = pre ++ Load u0 :: post -> route_of ex_cfg u0 = ToHttp a_url ->
+     served pre a_url = RResp 200 (BJson 1) p None ->
+     storable ex_cfg p = false \/ cc_lifetime ex_cfg p = None \/
+     (exists l, cc_lifetime ex_cfg p = Some l /\ elapsed pre + l <= elapsed ops)).
+Proof.
+  cbv zeta. split.
+  { intros u code b p t Hin. simpl in Hin.
+    repeat (destruct Hin as [Hin|Hin]; [discriminate Hin|]). exact Hin. }
+  split; [eexists; vm_compute; reflexivity|].
+  split; [reflexivity|]. split; [reflexivity|].
+  intros pre u0 post p Heq _ Hs.
+  destruct pre as [|o1 pre]; [discriminate|].
+  inversion Heq as [[Ho1 Hrest]]. subst o1.
+  destruct pre as [|o2 pre].
+  - unfold served in Hs. simpl in Hs. inversion Hs. subst p. left. reflexivity.
+  - destruct pre; discriminate.
+Qed.
+
+(* `Cache-Control: no-cache, max-age=n`: the library alone would let it be stored with lifetime n;
+   since the fix da1a3b4 (requiresRevalidation) the loader does not store it, so the next load
+   asks the origin again and returns v2 *)
+Example nocache_maxage_not_reused :
+  let ops := [Serve a_url (ok_resp 1 (PNoCacheMaxAge 3000)); Load a_url;
+              Serve a_url (ok_resp 2 (PNoCacheMaxAge 3000)); Tick 1000] in
+  cache (run 0 ex_cfg ops) = [] /\
+  snd (load 0 ex_cfg (run 0 ex_cfg ops) a_url) = Ok 2 /\
+  new_reqs (run 0 ex_cfg ops) (fst (load 0 ex_cfg (run 0 ex_cfg ops) a_url)) = [(CHttp, a_url)].
+Proof. vm_compute. repeat split; reflexivity. Qed.
+
+(* ---- with rel=alternate Link headers two statements FAIL (observations O-L2, O-L1; outside the
+   property's quantifier, whose histories have no Link header) ---- *)
+Definition u_url : url := "http://a.test/u".
+Definition alt_url : url := "http://a.test/alt".
+
+(* O-L2.  U answers 200 text/html, max-age=3000, Link alternate -> A; A answers {"v":1} with
+   no-store.  The load of U fetches both and stores A's document under U with U's lifetime.  A moves
+   on to v2; 1000 s later a load of U returns v1 with no request at all, although the only response
+   that ever carried v1 said no-store.  Holds for every fuel >= 1. *)
+Definition link_reuse_ops : list op :=
+  [ Serve u_url (RResp 200 BGarbage (PMaxAge 3000) (Some alt_url));
+    Serve alt_url (ok_resp 1 PNoStore); Load u_url;
+    Serve alt_url (ok_resp 2 PNoStore); Tick 1000 ].
+
+Theorem link_reuse_refuted fuel :
+  (1 <= fuel)%nat ->
+  let st := run fuel ex_cfg link_reuse_ops in
+  load fuel ex_cfg st u_url = (st, Ok 1) /\
+  served link_reuse_ops alt_url = ok_resp 2 PNoStore /\
+  cache st = [(u_url, (1, TAt 3000))] /\
+  (forall u r, In (Serve u r) link_reuse_ops ->
+               (exists code p alt, r = RResp code (BJson 1) p alt) ->
+               u = alt_url /\ r = ok_resp 1 PNoStore).
+Proof.
+  intros Hle.
+  assert (Hrun : run fuel ex_cfg link_reuse_ops = run 1 ex_cfg link_reuse_ops).
+  { unfold run, link_reuse_ops. cbn [fold_left step].
+    rewrite (load_mono 1 fuel ex_cfg _ u_url Hle); [reflexivity|]. vm_compute. discriminate. }
+  cbv zeta. rewrite Hrun.
+  split; [|split; [|split]].
+  - rewrite (load_mono 1 fuel ex_cfg _ u_url Hle); [vm_compute; reflexivity|]. vm_compute. discriminate.
+  - vm_compute. reflexivity.
+  - vm_compute. reflexivity.
+  - intros u r Hin [code [p [alt Hr]]]. simpl in Hin.
+    repeat (destruct Hin as [Hin|Hin];
+            [inversion Hin; subst; unfold ok_resp in *; try congruence; split; reflexivity|]).
+    contradiction.
+Qed.
+
+(* O-L1.  U answers 200 text/html with a Link alternate pointing to U itself.  Whatever the fuel, the
+   load runs out of it, and the number of requests it has issued by then grows with the fuel: the Go
+   recursion LoadDocument -> loadDocumentFromHTTP -> LoadDocument never ends (until the stack is gone). *)
+Definition loop_cfg : config :=
+  {| cache_mode_of := CacheOff; ipfs_client := false; gateway := ""; url_ok := fun _ => true;
+     cc := cc_reference |}.
+Definition loop_resp : response := RResp 200 BGarbage PNoStore (Some u_url).
+
+Lemma loop_diverges fuel : forall st,
+  origin st u_url = loop_resp ->
+  snd (load fuel loop_cfg st u_url) = Diverge /\
+  List.length (reqlog (fst (load fuel loop_cfg st u_url))) = (List.length (reqlog st) + S fuel)%nat.
+Proof.
+  induction fuel as [|f IH]; intros st Ho.
+  - rewrite load_unfold. unfold load_with. cbn [has_prefix u_url orb Ascii.eqb Bool.eqb andb].
+    unfold load_http. cbn [cache_on loop_cfg cache_mode_of]. unfold fetch.
+    cbn [url_ok loop_cfg negb]. rewrite Ho. unfold loop_resp. cbn [Z.eqb Pos.eqb negb recf fst snd].
+    split; [reflexivity|]. simpl. lia.
+  - rewrite load_unfold. unfold load_with. cbn [has_prefix u_url orb Ascii.eqb Bool.eqb andb].
+    unfold load_http. cbn [cache_on loop_cfg cache_mode_of]. unfold fetch.
+    cbn [url_ok loop_cfg negb]. rewrite Ho. unfold loop_resp. cbn [Z.eqb Pos.eqb negb recf].
+    fold loop_resp.
+    destruct (IH (log_req st (CHttp, u_url, now st, loop_resp)) Ho) as [H1 H2].
+    destruct (load f loop_cfg (log_req st (CHttp, u_url, now st, loop_resp)) u_url) as [st2 r2].
+    simpl in H1, H2. subst r2. simpl. split; [reflexivity|]. rewrite H2. simpl. lia.
+Qed.
+
+Theorem link_diverges_refuted fuel :
+  let st := run fuel loop_cfg [Serve u_url loop_resp] in
+  snd (load fuel loop_cfg st u_url) = Diverge /\
+  List.length (reqlog (fst (load fuel loop_cfg st u_url))) = S fuel.
+Proof.
+  cbv zeta. destruct (loop_diverges fuel (run fuel loop_cfg [Serve u_url loop_resp])) as [H1 H2].
+  - reflexivity.
+  - split; [exact H1|]. rewrite H2. reflexivity.
 Qed.
